@@ -114,7 +114,10 @@ def _p9(ctx):
         ctx.add('P9c', 'T-GUARD', d, okc1 and okc2, 'the no-reader bit is set exactly on the "stream list is now empty" edge' if okc1 and okc2 else
                 'no-reader bit: only when the list is empty=%s, always when it is=%s' % (okc1, okc2), sub=rsub + '|set')
         # d: callback runs on every alive path after the state change
-        cb = x.inlined(r'drop::\{closure#\d+\}$')
+        # the callback: the closure (or named function) that this destructor itself passes down
+        cb = [n_.id for n_ in g.nodes if n_.id in g.live() and n_.call is not None and n_.call['inlined'] is not None
+              and str(n_.call['how']).startswith(('closure', 'fnitem')) and (F.fns.get(n_.call['name']) or {}).get('parent') == d]
+        cb = sorted({x.rep(c_) for c_ in cb})
         okd1 = bool(cb) and all(x.must(e_, set(cb)) for e_ in alive_edges)
         okd2 = all(not x.reaches(c, a.nid) for c in cb for a in decs + listcas + setr)
         ctx.add('P9d', 'T-MUST', d, okd1 and okd2, 'the drop callback runs on every alive path, after the state changes' if okd1 and okd2 else
@@ -357,7 +360,7 @@ def _w_signal(ctx):
         okm = a.op == 'fetch_and' and v[0] in ('un', 'c')
         ctx.add('W10', 'T-FLOW', fl, okm, 'clear_epoch only masks the epoch bit' if okm else 'clear_epoch does not merely mask the epoch bit (%s of the whole signal word): it wipes the sticky no-reader bit, after which sends succeed again although every receiver is gone' % a.op, where=g.where(a.nid), sub='clear_epoch')
     # W7: who writes num_consumers
-    cands = fns_mentioning(F, 'ReaderMeta', 'num_consumers')
+    cands = sorted({s_ for c_ in fns_mentioning(F, 'ReaderMeta', 'num_consumers') for s_ in ctx.subjects_for(c_)})
     ctx.floor('W7', len(cands), 3, 'functions naming ReaderMeta.num_consumers')
     clone = ctx.fn1(r'^<multiqueue::InnerRecv<.*> as std::clone::Clone>::clone$')
     callers_dup = set()
@@ -451,7 +454,7 @@ def _w13_w14(ctx):
         x = g.x
         single_edges = _eq_const_edges(g, x, lambda a: a.on('ReaderMeta.num_consumers') and a.op == 'load', 1)
         for (nid, si, rv) in x.aggs('|'.join(re.escape(a) + '::' for a in built)):
-            if g.nodes[nid].inst != g.root_inst:
+            if x.home(nid) != g.root_inst:
                 continue
             e = x.agg_expr(nid, si)
             guarded = bool(single_edges) and x.dom(single_edges, nid)
@@ -509,7 +512,7 @@ def _s5(ctx):
         g = ctx.graph(c, 'MPMC')
         x = g.x
         for (nid, si, rv) in x.aggs(r'multiqueue::InnerRecv::InnerRecv$'):
-            if g.nodes[nid].inst != g.root_inst:
+            if x.home(nid) != g.root_inst:
                 continue
             e = x.agg_expr(nid, si)
             names = e[3]
@@ -530,7 +533,7 @@ def _s5(ctx):
         g = ctx.graph(c, 'MPMC')
         x = g.x
         for (nid, si, rv) in x.aggs(r'multiqueue::InnerSend::InnerSend$'):
-            if g.nodes[nid].inst != g.root_inst:
+            if x.home(nid) != g.root_inst:
                 continue
             e = x.agg_expr(nid, si)
             tok = e[4][e[3].index('token')]
